@@ -38,7 +38,8 @@ type expectCell struct {
 	need    []string // effects that must occur (in this order)
 	between []string // effects that must all occur, in any order, after need[0] and before the last element of need
 	forbid  []string // effects that must not occur
-	noFx    bool     // no effect at all
+	noFx    bool     // no effect at all (other than those listed in allow)
+	allow   []string // with noFx: effects that are permitted nevertheless
 }
 
 func runC14(c *Ctx) {
@@ -111,9 +112,11 @@ func (c *Ctx) ruleLifecycleTable(rule string) {
 		},
 		"start": {
 			"Initiated": {errs: []string{"nil"}, final: "Running", need: spawn, forbid: []string{"closechans", "stopall"}},
-			"Running":   {errs: []string{"ErrRunningWorker", "ErrNotRunningWorker"}, noFx: true},
-			"Paused":    {errs: []string{"ErrRunningWorker", "ErrNotRunningWorker"}, noFx: true},
-			"Stopped":   {errs: []string{"ErrRunningWorker", "ErrNotRunningWorker"}, noFx: true},
+			// reached when a further queue is bound to a running worker: the queue may already hold items, the
+			// dispatcher has to be told (and nothing else happens)
+			"Running": {errs: []string{"ErrRunningWorker", "ErrNotRunningWorker"}, noFx: true, need: []string{"notify"}, allow: []string{"notify"}},
+			"Paused":  {errs: []string{"ErrRunningWorker", "ErrNotRunningWorker"}, noFx: true},
+			"Stopped": {errs: []string{"ErrRunningWorker", "ErrNotRunningWorker"}, noFx: true},
 		},
 	}
 	t := c.lifecycle()
@@ -164,6 +167,10 @@ func (c *Ctx) ruleLifecycleTable(rule string) {
 				}
 				o := cellOutcome{Err: "void", Final: final, Effects: eff, End: sg.End}
 				exp := expectCell{errs: []string{"void"}, noFx: true}
+				if s == "Running" {
+					// the bound queue may already hold items: the running worker's dispatcher is woken, nothing else
+					exp = expectCell{errs: []string{"void"}, noFx: true, need: []string{"notify"}, allow: []string{"notify"}}
+				}
 				if s == "Initiated" {
 					exp = expectCell{errs: []string{"void"}, final: "Running", need: spawn, forbid: []string{"closechans", "stopall"}}
 				}
@@ -217,7 +224,13 @@ func (c *Ctx) checkCell(rule, m, s string, exp expectCell, o cellOutcome) {
 	}
 	if exp.noFx {
 		for _, e := range o.Effects {
-			if e != "release" {
+			ok := e == "release"
+			for _, a := range exp.allow {
+				if a == e {
+					ok = true
+				}
+			}
+			if !ok {
 				problems = append(problems, "has effect "+e)
 			}
 		}
@@ -437,6 +450,29 @@ func (c *Ctx) ruleListenerHarmless(rule string) {
 						allStopped = false
 					}
 				}
+			}
+		}
+	}
+	// the listener is spawned only once the worker is Running: a context that is already done makes it call Stop()
+	// at once, and Stop() refuses (and the listener gives up) while the status is still Initiated
+	for _, m := range t.Methods {
+		for _, s := range t.States {
+			for _, o := range t.cell(m, s) {
+				li := o.idx("go:listener")
+				if li < 0 {
+					continue
+				}
+				ri := -1
+				for i, e := range o.Effects[:li] {
+					if e == "wstatus:Running" {
+						ri = i
+					}
+					if strings.HasPrefix(e, "wstatus:") && e != "wstatus:Running" {
+						ri = -1
+					}
+				}
+				c.Rep.check(ri >= 0, rule, m, "context listener spawned before the worker is Running (from "+s+")", o.End, "Running stored, then the listener spawned",
+					fmt.Sprintf("%s from %s spawns the context listener while the status is not yet Running: if the context is already cancelled the listener's Stop() is refused (ErrNotRunningWorker) and nobody stops the worker afterwards (%s)", m, s, o))
 			}
 		}
 	}
